@@ -295,9 +295,11 @@ pub fn run_osaka_fixtures(ctx: &Ctx, rep: &mut Report, pid: &str) {
     let files = super::c01_spec::fixture_files();
     let fr = &files;
     let nsh = 16;
+    // sharded sanitizer lanes: process k of K replays every K-th file
+    let (pk, pn): (usize, usize) = std::env::var("VERIF_SHARD").ok().and_then(|s| s.split_once('/').map(|(a, b)| (a.parse().unwrap_or(0), b.parse().unwrap_or(1)))).unwrap_or((0, 1));
     let r = par_shards(ctx, nsh, |si, _rng, rep| {
         for (i, f) in fr.iter().enumerate() {
-            if i % nsh != si || !f.contains("eof_suite") {
+            if i % nsh != si || !f.contains("eof_suite") || (i / nsh) % pn != pk {
                 continue;
             }
             for fc in super::c01_spec::load_fixture_file(f) {
@@ -346,9 +348,10 @@ pub fn run(ctx: &Ctx) -> i32 {
     rep.add("shipped_vectors_loaded", vectors.len() as u64);
     // (1) shipped vectors: decode/validate properties + agreement (observation)
     let vr = &vectors;
+    let (pk, pn): (usize, usize) = std::env::var("VERIF_SHARD").ok().and_then(|s| s.split_once('/').map(|(a, b)| (a.parse().unwrap_or(0), b.parse().unwrap_or(1)))).unwrap_or((0, 1));
     let r = par_shards(ctx, 16, |si, rng, rep| {
         for (i, v) in vr.iter().enumerate() {
-            if i % 16 != si {
+            if i % 16 != si || (i / 16) % pn != pk {
                 continue;
             }
             let acc = check_bytes(&v.code, rep, "shipped-vector");
